@@ -496,6 +496,40 @@ Fixpoint spec_http_ctx_from (nr nw : nat) (dr dw : list Z) (steps : list (list (
       && spec_http_ctx_from nr1 nw1 dr1 dw1 rest
   end.
 
+(* "a connection that has been idle past its timeout fails its readers", on the observed history, in its plainest form: a
+   Read that is still parked at the end, on a connection that never saw any activity in the whole scenario (no delivery to one
+   of its Reads, no Write on it), although the cleaner was never stopped and the clock has advanced by at least timeout +
+   interval since the Read was issued (so a tick has come at which the connection had been idle for the timeout) *)
+Fixpoint http_idle_scan (T : Z) (reads : list (nat * Z)) (active : list nat) (stopped : bool)
+         (steps : list (list (hact bytes) * hobs)) : Z * list (nat * Z) * list nat * bool * list Z :=
+  match steps with
+  | [] => (T, reads, active, stopped, [])
+  | (acts, o) :: rest =>
+      let '(T1, reads1, active1, stopped1) :=
+        fold_left (fun st a => let '(T, rs, ac, sp) := st in
+                     match a with
+                     | HAdvance d => ((if d <? 0 then T else T + d), rs, ac, sp)
+                     | HRead c _ => (T, rs ++ [(c, T)], ac, sp)
+                     | HWrite c _ => (T, rs, c :: ac, sp)
+                     | HStop => (T, rs, ac, true)
+                     | _ => st
+                     end) acts (T, reads, active, stopped) in
+      let delivered := flat_map (fun p => match snd p with
+                                          | HROk _ => match nth_error reads1 (Z.to_nat (fst p)) with Some (c, _) => [c] | None => [] end
+                                          | _ => [] end) (ho_reads o) in
+      match rest with
+      | [] => (T1, reads1, delivered ++ active1, stopped1, ho_pr o)
+      | _ => http_idle_scan T1 reads1 (delivered ++ active1) stopped1 rest
+      end
+  end.
+Definition spec_http_idle (interval timeout : Z) (steps : list (list (hact bytes) * hobs)) : bool :=
+  let '(T, reads, active, stopped, pending) := http_idle_scan 0 [] [] false steps in
+  stopped || (interval <=? 0) ||
+  forallb (fun j => match nth_error reads (Z.to_nat j) with
+                    | Some (c, t0) => existsb (Nat.eqb c) active || (T - t0 <? timeout + interval)
+                    | None => true
+                    end) pending.
+
 (* an idle connection: after the last step no Read is parked on a connection
    that is not registered any more, and no context-done call is parked *)
 
@@ -562,7 +596,7 @@ Definition check (c : c19case) : list nat :=
   | CHttp iv tmo now steps =>
       (match agree_from h_react_all h_predict hobs_eqb hst_eqb 0 [h_init iv tmo now] steps with
        | None => [] | Some _ => [1%nat] end) ++
-      (if spec_http steps then [] else [2%nat]) ++
+      (if spec_http steps && spec_http_idle iv tmo steps then [] else [2%nat]) ++
       (if spec_http_ctx_from 0 0 [] [] steps then [] else [3%nat])
   | CWsFrag room steps holds =>
       (match agree_from fr_react_all fr_predict fobs_eqb fstate_eqb 0 [f_init room] steps with
